@@ -22,7 +22,7 @@ import (
 type C11Case struct {
 	// Stats: do-nothing stats handlers on server and client (kit.Topo.Stats)
 	Stats  bool   `json:"stats,omitempty"`
-	Mode   string `json:"mode"` // handler-early | caller-cancel | client-extra | server-extra
+	Mode   string `json:"mode"` // handler-early | caller-cancel | client-extra | server-extra | failed-open
 	Kind   int    `json:"kind"`
 	K      int    `json:"k"`       // handler-early: messages the handler consumes
 	N      int    `json:"n"`       // handler-early: messages the caller sends
@@ -49,7 +49,7 @@ type C11Case struct {
 }
 
 func genC11(t *rapid.T) C11Case {
-	c := C11Case{Mode: rapid.SampledFrom([]string{"handler-early", "caller-cancel", "client-extra", "server-extra"}).Draw(t, "mode")}
+	c := C11Case{Mode: rapid.SampledFrom([]string{"handler-early", "caller-cancel", "client-extra", "server-extra", "failed-open"}).Draw(t, "mode")}
 	c.Kind = rapid.SampledFrom(streamKinds).Draw(t, "kind")
 	c.By = rapid.IntRange(0, 4).Draw(t, "by")
 	c.Ser = rapid.Bool().Draw(t, "ser")
@@ -68,6 +68,10 @@ func genC11(t *rapid.T) C11Case {
 		c.SendFail = c.Kind == kit.KindBidi && rapid.IntRange(0, 2).Draw(t, "send_fail") == 0
 		c.Early = rapid.IntRange(0, 2).Draw(t, "early") == 0
 		c.ParkSend = c.Kind == kit.KindBidi && !c.SendFail && rapid.IntRange(0, 2).Draw(t, "park_send") == 0
+	case "failed-open":
+		// the write of the opening envelope reaches the server but is reported as failed to the caller, which therefore
+		// never serves the stream; the handler answers with Extra messages and returns
+		c.Extra = rapid.IntRange(0, 6).Draw(t, "extra")
 	case "client-extra":
 		c.Extra = rapid.IntRange(1, 6).Draw(t, "extra")
 		c.Shape = rapid.SampledFrom([]string{"bodies-after-halfclose", "bodies-after-return", "trailers-after-halfclose", "mixed"}).Draw(t, "shape")
@@ -134,6 +138,13 @@ func execC11(t *testing.T, c C11Case) (v Verdict) {
 				sched.Park(nil, "handler-return")
 				if c.RetErr {
 					return status.Error(codes.FailedPrecondition, "early")
+				}
+				return nil
+			case "failed-open":
+				for i := 0; i < c.Extra; i++ {
+					if err := kit.SendBytes(s, []byte{byte(i)}); err != nil {
+						return err
+					}
 				}
 				return nil
 			case "caller-cancel":
@@ -304,6 +315,37 @@ func execC11(t *testing.T, c C11Case) (v Verdict) {
 				}()
 			}
 			kit.Settle()
+			go probe(cc)
+			kit.Settle()
+			wgDone := make(chan struct{})
+			go func() { wg.Wait(); close(wgDone) }()
+			kit.Settle()
+			tap = w.Tap.Snapshot()
+			sched.Drain()
+			w.Shutdown()
+			kit.Settle()
+
+		case "failed-open":
+			w := kit.NewWorld(kit.Topo{Kind: "direct", Serialize: c.Ser, Clients: 1, Stats: c.Stats}, svc, nil, nil)
+			cc := w.Conn(0)
+			tm := kit.FullMethod("t")
+			w.Links[0].A.FailAfterDeliverIf(func(r *kit.Rpc) bool {
+				return r.GetHeader().GetMethod() == tm && r.GetBody() == nil && r.GetTrailer() == nil && r.GetReset_() == nil
+			})
+			var wg sync.WaitGroup
+			startBystanders(cc, &wg)
+			ctx, cancel := context.WithTimeout(context.Background(), time.Hour)
+			defer cancel()
+			if cs, err := cc.NewStream(ctx, kit.StreamDescFor(c.Kind), tm); err == nil {
+				// (a library that hands out the stream all the same: walk away from it without reading)
+				_ = cs
+			}
+			mu.Lock()
+			targetDone = true // there is no call to terminate: the open was refused
+			o := kit.ErrObs{Raw: "open refused"}
+			targetEnd = &o
+			mu.Unlock()
+			kit.Settle() // the handler has answered a stream nobody on the client side is serving
 			go probe(cc)
 			kit.Settle()
 			wgDone := make(chan struct{})
